@@ -24,6 +24,8 @@ import (
 	"net"
 	"net/http"
 	"net/http/httptest"
+	"reflect"
+	"sort"
 	"strings"
 	"sync"
 	"testing"
@@ -45,6 +47,82 @@ import (
 )
 
 type vOpaque = configopaque.String
+
+// vMarsh implements confmap.Marshaler the way hand-written Marshal methods do: it hands its content to the
+// Conf as it is (typed values); redacting them is the generic encoder's job, which has to run over the
+// hook's result.
+type vMarsh struct{ V any }
+
+func (m vMarsh) Marshal(conf *confmap.Conf) error {
+	return conf.Merge(confmap.NewFromStringMap(map[string]any{"v": m.V}))
+}
+
+func init() {
+	vMarshType = reflect.TypeOf(vMarsh{})
+	vMakeMarsh = func(inner any) any { return vMarsh{V: inner} }
+}
+
+// vMarshShapes: nested (and top-level) Marshalers around the basic contents
+func vMarshShapes(thorough bool) []*vShape {
+	l := []*vShape{
+		vNM(vBare), vF(vNM(vBare)), vF(vNM(vM(vBare))), vF(vNM(vS(vBare))), vF(vP(vNM(vBare))), vM(vNM(vBare)), vS(vNM(vF(vBare))),
+		vF(vI(vNM(vP(vBare)))), vF(vNM(vKey)), vF(vNM(vA(vBare))), vF(vNM(vNM(vBare))), vP(vNM(vM(vBare))), vF(vNM(vKey2)),
+	}
+	if thorough {
+		l = append(l, vF(vNM(vF(vM(vBare)))), vF(vNM(vU(vBare))), vS(vP(vNM(vBare))), vM(vNM(vS(vF(vBare)))), vF(vNM(vI(vBare))), vNM(vKey2), vF(vNM(vP(vF(vBare)))))
+	}
+	return l
+}
+
+// vRawDump prints what is REACHABLE in a marshalled configuration map, looking through typed values: a
+// configuration map is supposed to hold plain, already redacted data.
+func vRawDump(v reflect.Value, b *strings.Builder, depth int) {
+	if !v.IsValid() || depth > 12 {
+		b.WriteString("nil")
+		return
+	}
+	switch v.Kind() {
+	case reflect.Interface, reflect.Pointer:
+		if v.IsNil() {
+			b.WriteString("nil")
+			return
+		}
+		vRawDump(v.Elem(), b, depth+1)
+	case reflect.String:
+		fmt.Fprintf(b, "%q", v.String())
+	case reflect.Map:
+		keys := v.MapKeys()
+		ss := make([]string, len(keys))
+		for i, k := range keys {
+			var kb, vb strings.Builder
+			vRawDump(k, &kb, depth+1)
+			vRawDump(v.MapIndex(k), &vb, depth+1)
+			ss[i] = kb.String() + ":" + vb.String()
+		}
+		sort.Strings(ss)
+		b.WriteString("{" + strings.Join(ss, ",") + "}")
+	case reflect.Slice, reflect.Array:
+		b.WriteString("[")
+		for i := 0; i < v.Len(); i++ {
+			if i > 0 {
+				b.WriteString(",")
+			}
+			vRawDump(v.Index(i), b, depth+1)
+		}
+		b.WriteString("]")
+	case reflect.Struct:
+		b.WriteString(v.Type().String() + "{")
+		for i := 0; i < v.NumField(); i++ {
+			if i > 0 {
+				b.WriteString(",")
+			}
+			vRawDump(v.Field(i), b, depth+1)
+		}
+		b.WriteString("}")
+	default:
+		b.WriteString("<" + v.Kind().String() + ">")
+	}
+}
 
 func vCauseNone(*vShape) string { return "unexplained" }
 
@@ -109,6 +187,34 @@ func vE2EPaths(sh *vShape) []*vPath {
 		{label: "sugar.Info(v)", render: func(v any) string { return vSugar(true, func(l *zap.SugaredLogger) { l.Info("cfg ", v) }) }, cause: vCauseFmtV},
 		{label: "sugar.Infow(k, v)", render: func(v any) string { return vSugar(false, func(l *zap.SugaredLogger) { l.Infow("m", "k", v) }) }, cause: vCauseJSON},
 		{label: "sugar.With(k, v).Error", render: func(v any) string { return vSugar(true, func(l *zap.SugaredLogger) { l.With("k", v).Error("m") }) }, cause: vCauseJSON},
+		{label: "confmap.Marshal: everything reachable in ToStringMap (typed values looked through)", render: func(v any) string {
+			conf := confmap.New()
+			if err := conf.Marshal(v); err != nil {
+				return "ERR " + err.Error()
+			}
+			var b strings.Builder
+			vRawDump(reflect.ValueOf(conf.ToStringMap()), &b, 0)
+			return b.String()
+		}, cause: func(sh *vShape) string {
+			if sh.hasArray() {
+				return "confmap-array-left-typed"
+			}
+			return "unexplained"
+		}},
+		{label: "confmap.Marshal: conf.Get of every leaf, fmt %s of string(kind)", render: func(v any) string {
+			conf := confmap.New()
+			if err := conf.Marshal(v); err != nil {
+				return "ERR " + err.Error()
+			}
+			var b strings.Builder
+			for _, k := range conf.AllKeys() {
+				x := reflect.ValueOf(conf.Get(k))
+				if x.IsValid() && x.Kind() == reflect.String {
+					b.WriteString(k + "=" + x.String() + ";") // what a kind-based consumer (cast, koanf String()) sees
+				}
+			}
+			return b.String()
+		}, cause: vCauseNone},
 		{label: "confmap.Marshal then json of ToStringMap", render: func(v any) string {
 			conf := confmap.New()
 			if err := conf.Marshal(v); err != nil {
@@ -127,6 +233,12 @@ func vE2EPaths(sh *vShape) []*vPath {
 			}
 			return fmt.Sprintf("%v", conf.ToStringMap())
 		}, cause: vCauseNone},
+	}
+	for _, f := range []struct {
+		verb string
+		bits int
+	}{{"v", 0}, {"v", 1}, {"v", 4}, {"s", 0}, {"q", 0}, {"x", 0}, {"d", 0}} {
+		ps = append(ps, vFmtPath(f.verb, f.bits, 0, 0))
 	}
 	if sh.k == 'B' || (sh.k == 'P' && sh.in.k == 'B') {
 		ps = append(ps, &vPath{coq: "PZapStringer", label: "zap.Stringer", render: func(v any) string {
@@ -411,6 +523,8 @@ func TestVerifC14E2E(t *testing.T) {
 	r := vNewRunner(out)
 	shapes := vShapes(thorough)
 	out.Stat("shapes", len(shapes))
+	shapes = append(shapes, vMarshShapes(thorough)...)
+	out.Stat("shapes_with_marshaler", len(vMarshShapes(thorough)))
 	for _, sh := range shapes {
 		r.run(sh, vE2EPaths(sh), 40)
 	}
